@@ -98,6 +98,18 @@ def programs(prep):
         b0, _ = hist_stmts("r[0]", h0, prep)
         b1, _ = hist_stmts("r[1]", h1, prep)
         progs.append(Prog("array:%s,%s" % (h0, h1), "function main() -> void { %s@tracked qubit[2] r; %s %s }" % (pad, b0, b1), [("qubit[] r", [h0, h1])]))
+    # tracked fields that hold qubits the object does NOT own: an unsized 'qubit[]' field (nothing is allocated for it) or a
+    # 'qubit' field bound by the constructor to the caller's register / qubit; the object itself owns nothing else
+    pb = "class Pb { @tracked public qubit[] reg; public constructor(qubit[] r) -> Pb { this.reg = r; } }\n"
+    pq = "class Pq { @tracked public qubit q; public constructor(qubit c) -> Pq { this.q = c; } }\n"
+    for h0, h1 in itertools.product(HIST, HIST):
+        b0, _ = hist_stmts("r[0]", h0, prep)
+        b1, _ = hist_stmts("r[1]", h1, prep)
+        progs.append(Prog("borrow-array-after:%s,%s" % (h0, h1), pb + "function main() -> void { %squbit[2] r; %s %s Pb p = new Pb(r); echo(\"e\"); }" % (pad, b0, b1), [("Pb.reg", [h0, h1])], 1))
+        progs.append(Prog("borrow-array-before:%s,%s" % (h0, h1), pb + "function main() -> void { %squbit[2] r; { Pb p = new Pb(r); %s %s } echo(\"e\"); }" % (pad, b0, b1), [("Pb.reg", [h0, h1])], 1))
+    for h in HIST:
+        body, _ = hist_stmts("c", h, prep)
+        progs.append(Prog("borrow-qubit:%s" % h, pq + "function main() -> void { %squbit c; %s Pq p = new Pq(c); p = null; echo(\"e\"); }" % (pad, body), [("Pq.q", [h])], 1))
     progs.append(Prog("array-measure-all", "function main() -> void { %s@tracked qubit[2] r; %s(r[0]); %s(r[1]); measure r; }" % (pad, prep or "z", prep or "z"), [("qubit[] r", ["M", "M"])]))
     progs.append(Prog("untracked", "function main() -> void { qubit q; measure q; echo(\"e\"); }", [], 1))
     return progs
@@ -246,7 +258,7 @@ def main(tier):
                 # all measurements return 1: wrap expected()
                 base = p.expected
                 p.expected = (lambda b: (lambda outs: b([1] * len(outs))))(base)
-        sel = ps if tier == "thorough" else [p for p in ps if p.name.split(":")[0] in ("main", "for2", "helper2", "field-overwrite", "field-null", "two-sites", "array-measure-all", "block", "untracked", "field-reuse", "local-after-release") or p.name.startswith("array:M")]
+        sel = ps if tier == "thorough" else [p for p in ps if p.name.split(":")[0] in ("main", "for2", "helper2", "field-overwrite", "field-null", "two-sites", "array-measure-all", "block", "untracked", "field-reuse", "local-after-release", "borrow-array-after", "borrow-qubit") or p.name.startswith("array:M")]
         modes = [("none", None, None)] + [("flag", n, None) for n in (1, 2, 3)] + [("ann", None, n) for n in (1, 2, 3)] + [("both-eq", 2, 2), ("both-diff", 3, 2), ("both-diff", 1, 3), ("both-diff", 2, 1)]
         echos = [None, "auto", "all", "none"]
         for p in sel:
